@@ -1,5 +1,5 @@
 (* Run.v -- scenario dispatcher of the extracted model: sx -> sx. *)
-From LNN Require Import Num Neuron Node Sx Grad.
+From LNN Require Import Num Neuron Node Sx Grad PropEngine PropRun.
 Open Scope Z_scope.
 
 Definition dwhich (s : sx) : which :=
@@ -47,6 +47,7 @@ Definition run_base (tag : Z) (args : list sx) : option sx :=
   match tag with
   | 1 => Some (run_k1 args)
   | 2 => Some (run_k2 args)
+  | 3 => Some (run_k3 args)
   | 8 => Some (run_k8 args)
   | _ => None
   end.
